@@ -212,7 +212,7 @@ class Check:
             'functions_encoded': sorted(self.functions), 'stubs': sorted(self.stubs),
             'summaries_used': sorted(self.summaries), 'zero_initialised_foreign_globals': sorted(self.zero_globals),
             'loops_unrolled': self.loops, 'bounds': self.bounds, 'outside_claim': self.outside,
-            'queries': smt.STATS['queries'], 'solver_s': round(smt.STATS['solver_s'], 2), 'solver_wins': smt.STATS['by_solver'],
+            'queries': smt.STATS['queries'], 'queries_confirmed_by_a_second_solver': smt.STATS['confirmed_by_second_solver'], 'solver_s': round(smt.STATS['solver_s'], 2), 'solver_wins': smt.STATS['by_solver'],
             'symx_s': round(self.symx_s, 2),
             'ground_checks': sum(1 for o in self.obls if o['kind'] == 'ground'),
             'failed': [o for o in self.obls if not o['ok']][:20],
@@ -224,8 +224,9 @@ class Check:
                 cov[k] = v
         ev = {'property_id': self.pid, 'tier': self.tier, 'seed': self.seed, 'level': self.level, 'coverage': cov,
               'assumptions': self.assumptions, 'wall_s': round(wall, 2), 'violations': len(unlisted)}
-        os.makedirs(os.path.join(VERIF, 'evidence'), exist_ok=True)
-        with open(os.path.join(VERIF, 'evidence', self.pid + '.json'), 'w') as f:
+        evdir = os.environ.get('VERIF_EVIDENCE_DIR') or os.path.join(VERIF, 'evidence')
+        os.makedirs(evdir, exist_ok=True)
+        with open(os.path.join(evdir, self.pid + '.json'), 'w') as f:
             json.dump(ev, f, indent=1)
         print('%s %s: %d/%d obligations discharged, %d queries, %.1fs solver, %.1fs wall' % (self.pid, self.tier, disc, n, smt.STATS['queries'], smt.STATS['solver_s'], wall))
         for key, text, replay in unlisted:
